@@ -19,11 +19,12 @@ MANIFEST = dict(cat=LEVEL, ref="DESIGN.md 3.12, 6 (C11)",
          "fresh database by the sql-run harness and every cell read back (scan + PK lookup) is compared with the expected point "
          "(type tag, float bits, JSON documents, f32 bits)",
     text="For the named points of 20 column types (integer bounds, NaN/inf/-0/subnormal/max floats, DECIMAL, text and blobs of "
-         "999..8001 bytes around the TOAST threshold (1000) and chunk size (4000) and of 3 MiB, valid and invalid UTF-8 blobs, "
+         "999..8001 bytes around the TOAST threshold (1000) and chunk size (4000), of 100 KB and of 3 MiB, valid and invalid UTF-8 blobs, "
          "toast-pointer look-alikes, 4-byte UTF-8, quotes/backslashes/NUL, calendar range ends, UUID, JSON documents, vectors of "
          "dimension 1/8/9/70) a value written by any path reads back with the same type and value, also after reopen and after "
-         "a neighbour column is updated; quick tier samples ~2400 of ~39000 behaviours (stratified), thorough runs all but a "
-         "capped number of 3 MiB cases",
+         "a neighbour column is updated, modulo the recorded findings; quick tier samples ~1800 of the ~27000 behaviours of four "
+         "table shapes (stratified by type, point, op, path, form), thorough runs every behaviour below 100 KB of all six shapes "
+         "(~38600) plus 1500 of the 100 KB and 100 of the 3 MiB behaviours",
     note="no claim for values between the named points; the concrete meaning of a point name is in lib/values.py; the harness "
          "decodes JSONB with TurDB's own JsonbView::to_json_string")
 
@@ -346,7 +347,7 @@ def sample_cases(cases, tier, rng):
         pages = [c for c in rest if any(h["detail"].get("len", 0) >= 100000 or (h.get("predetail") or {}).get("len", 0) >= 100000 for h in c["hist"])]
         small = [c for c in rest if c not in pages] if len(pages) < 50 else [c for c in rest if id(c) not in {id(x) for x in pages}]
         return small + _spread(pages, key, 1500, rng) + _spread(huge, hkey, 100, rng)
-    return _spread(rest, key, 2200, rng) + _spread(huge, hkey, 12, rng)
+    return _spread(rest, key, 1800, rng) + _spread(huge, hkey, 10, rng)
 
 
 def batches(cases, limit=120 * 1024 * 1024):
